@@ -100,8 +100,9 @@ class Sim:
             # quiescent with blocked actors
             rounds += 1
             self.quiescent_rounds = rounds
+            skip_cancel = False
             if on_quiescent is not None:
-                on_quiescent(rounds)
+                skip_cancel = bool(on_quiescent(rounds))     # True: the callback unblocked something itself
             if rounds > max_rounds:
                 self.gave_up = True
                 for t in self.tasks.values():
@@ -112,8 +113,9 @@ class Sim:
                 break
             if rounds >= 3:
                 self.draining = True
-            for aid in list(self.scopes):
-                self.cancel(aid)
+            if not skip_cancel:
+                for aid in list(self.scopes):
+                    self.cancel(aid)
             self.progress += 1
         res = await asyncio.gather(*self.tasks.values(), return_exceptions=True)
         return res
